@@ -1301,4 +1301,265 @@ theorem lower_caseToks (m : CaseMode) (toks : List Tok) : ∀ st,
     cases l with
     | zero => simp only [caseToks, tokText_cons, lower_append, lower_caseTok, ih]
     | succ l => simp only [caseToks, tokText_cons, lower_append, lower_caseTok, ih]
+
+/-! ### scanning strings with the same skeleton -/
+
+/-- same token lengths and levels -/
+def Shape (a b : List Tok) : Prop :=
+  List.Forall₂ (fun t t' : Tok => t.1.length = t'.1.length ∧ t.2 = t'.2) a b
+
+theorem Shape.cons' {t t' : Tok} {a b : List Tok} (h1 : t.1.length = t'.1.length) (h2 : t.2 = t'.2)
+    (h : Shape a b) : Shape (t :: a) (t' :: b) := List.Forall₂.cons ⟨h1, h2⟩ h
+
+theorem shape_eq {a : List Tok} : ∀ {b c : List Tok}, Shape a b → Shape a c → tokText b = tokText c → b = c := by
+  induction a with
+  | nil => intro b c hb hc _; cases hb; cases hc; rfl
+  | cons t a ih =>
+    intro b c hb hc htxt
+    cases hb with
+    | cons hb1 hb2 =>
+      cases hc with
+      | cons hc1 hc2 =>
+        rename_i tb b' tc c'
+        simp only [tokText_cons] at htxt
+        have hlen : tb.1.length = tc.1.length := by rw [← hb1.1, hc1.1]
+        obtain ⟨e1, e2⟩ := List.append_inj htxt hlen
+        have e3 : tb = tc := Prod.ext e1 (by rw [← hb1.2, hc1.2])
+        rw [e3, ih hb2 hc2 e2]
+
+theorem endsInSpecial_of_lower_eq (s : Str) : ∀ (s' : Str) (sp : Bool) (d : Nat), lower s' = lower s →
+    endsInSpecial sp d s' = endsInSpecial sp d s := by
+  induction s with
+  | nil => intro s' sp d h; rw [lower_eq_nil h]
+  | cons c r ih =>
+    intro s' sp d h
+    obtain ⟨c', r', rfl, h1, h2⟩ := lower_eq_cons h
+    have e1 := eq_iff_of_lowerC_eq h1 brace_not_alpha.1
+    have e2 := eq_iff_of_lowerC_eq h1 brace_not_alpha.2.1
+    have e3 := head_iff_of_lower_eq h2 brace_not_alpha.2.2.1
+    simp only [endsInSpecial, e1, e2, e3, ih r' _ _ h2]
+
+def SkelGoal (s : Str) (toks : List Tok) : ScanMode → Prop
+  | .norm d => ∀ s', lower s' = lower s → ∃ toks', scanM (.norm d) s' = some toks' ∧ Shape toks toks'
+  | .spec k acc => ∀ s' acc', lower s' = lower s → lower acc' = lower acc →
+      ∃ toks', scanM (.spec k acc') s' = some toks' ∧ Shape toks toks'
+
+theorem scanM_skel (m : ScanMode) (s : Str) (toks : List Tok) (h : scanM m s = some toks) :
+    SkelGoal s toks m := by
+  fun_induction scanM m s generalizing toks with
+  | case1 d =>
+    cases h
+    simp only [SkelGoal]
+    intro s' hs
+    rw [lower_eq_nil hs]
+    exact ⟨[], by simp [scanM], List.Forall₂.nil⟩
+  | case2 k acc =>
+    cases h
+    simp only [SkelGoal]
+    intro s' acc' hs hacc
+    rw [lower_eq_nil hs]
+    exact ⟨[(acc', 1), (['}'], 0)], by simp [scanM],
+      Shape.cons' (length_eq_of_lower_eq hacc.symm) rfl (Shape.cons' rfl rfl List.Forall₂.nil)⟩
+  | case3 d r hs ih =>
+    obtain ⟨t, ht, rfl⟩ := Option.map_eq_some_iff.1 h
+    obtain ⟨rfl, hr⟩ := hs
+    have := ih t ht
+    simp only [SkelGoal] at this ⊢
+    intro s' hs'
+    obtain ⟨c', r', rfl, h1, h2⟩ := lower_eq_cons hs'
+    have hc' : c' = '{' := (eq_iff_of_lowerC_eq h1 brace_not_alpha.1).2 rfl
+    subst hc'
+    have hr' := (head_iff_of_lower_eq h2 brace_not_alpha.2.2.1).2 hr
+    obtain ⟨toks', h3, h4⟩ := this r' [] h2 rfl
+    exact ⟨(['{'], 1) :: toks', by rw [scanM_norm_open_special hr', h3]; rfl, Shape.cons' rfl rfl h4⟩
+  | case4 => simp at h
+  | case5 d r hs hd' ih =>
+    obtain ⟨t, ht, rfl⟩ := Option.map_eq_some_iff.1 h
+    have := ih t ht
+    simp only [SkelGoal] at this ⊢
+    intro s' hs'
+    obtain ⟨c', r', rfl, h1, h2⟩ := lower_eq_cons hs'
+    have hc' : c' = '{' := (eq_iff_of_lowerC_eq h1 brace_not_alpha.1).2 rfl
+    subst hc'
+    have hr' : ¬ (d = 0 ∧ r'.head? = some '\\') := fun hh =>
+      hs ⟨hh.1, (head_iff_of_lower_eq h2 brace_not_alpha.2.2.1).1 hh.2⟩
+    obtain ⟨toks', h3, h4⟩ := this r' h2
+    exact ⟨(['{'], d + 1) :: toks', by rw [scanM_norm_open hr' hd', h3]; rfl, Shape.cons' rfl rfl h4⟩
+  | case6 d c r hc hcd ih =>
+    obtain ⟨t, ht, rfl⟩ := Option.map_eq_some_iff.1 h
+    have := ih t ht
+    simp only [SkelGoal] at this ⊢
+    intro s' hs'
+    obtain ⟨c', r', rfl, h1, h2⟩ := lower_eq_cons hs'
+    have hc' : c' = '}' := (eq_iff_of_lowerC_eq h1 brace_not_alpha.2.1).2 hcd.1
+    subst hc'
+    obtain ⟨toks', h3, h4⟩ := this r' h2
+    exact ⟨(['}'], d - 1) :: toks', by rw [scanM_norm_close hcd.2, h3]; rfl, Shape.cons' rfl rfl h4⟩
+  | case7 d c r hc hcd ih =>
+    obtain ⟨t, ht, rfl⟩ := Option.map_eq_some_iff.1 h
+    have := ih t ht
+    simp only [SkelGoal] at this ⊢
+    intro s' hs'
+    obtain ⟨c', r', rfl, h1, h2⟩ := lower_eq_cons hs'
+    have hc1 : ¬ c' = '{' := fun hh => hc ((eq_iff_of_lowerC_eq h1 brace_not_alpha.1).1 hh)
+    have hc2 : ¬ (c' = '}' ∧ d > 0) := fun hh =>
+      hcd ⟨(eq_iff_of_lowerC_eq h1 brace_not_alpha.2.1).1 hh.1, hh.2⟩
+    obtain ⟨toks', h3, h4⟩ := this r' h2
+    exact ⟨([c'], d) :: toks', by rw [scanM_norm_char hc1 hc2, h3]; rfl, Shape.cons' rfl rfl h4⟩
+  | case8 => simp at h
+  | case9 k acc r hk ih =>
+    have := ih toks h
+    simp only [SkelGoal] at this ⊢
+    intro s' acc' hs' hacc
+    obtain ⟨c', r', rfl, h1, h2⟩ := lower_eq_cons hs'
+    have hc' : c' = '{' := (eq_iff_of_lowerC_eq h1 brace_not_alpha.1).2 rfl
+    subst hc'
+    obtain ⟨toks', h3, h4⟩ := this r' (acc' ++ ['{']) h2 (by simp [hacc])
+    exact ⟨toks', by rw [scanM_spec_open hk, h3], h4⟩
+  | case10 k acc r hk hne ih =>
+    obtain ⟨t, ht, rfl⟩ := Option.map_eq_some_iff.1 h
+    have := ih t ht
+    simp only [SkelGoal] at this ⊢
+    intro s' acc' hs' hacc
+    obtain ⟨c', r', rfl, h1, h2⟩ := lower_eq_cons hs'
+    have hc' : c' = '}' := (eq_iff_of_lowerC_eq h1 brace_not_alpha.2.1).2 rfl
+    subst hc'
+    obtain ⟨toks', h3, h4⟩ := this r' h2
+    exact ⟨(acc', 1) :: (['}'], 0) :: toks', by rw [scanM_spec_close1 hk, h3]; rfl,
+      Shape.cons' (length_eq_of_lower_eq hacc.symm) rfl (Shape.cons' rfl rfl h4)⟩
+  | case11 k acc r hk hne ih =>
+    have := ih toks h
+    simp only [SkelGoal] at this ⊢
+    intro s' acc' hs' hacc
+    obtain ⟨c', r', rfl, h1, h2⟩ := lower_eq_cons hs'
+    have hc' : c' = '}' := (eq_iff_of_lowerC_eq h1 brace_not_alpha.2.1).2 rfl
+    subst hc'
+    obtain ⟨toks', h3, h4⟩ := this r' (acc' ++ ['}']) h2 (by simp [hacc])
+    exact ⟨toks', by rw [scanM_spec_close hk, h3], h4⟩
+  | case12 k acc c r hc hc2 ih =>
+    have := ih toks h
+    simp only [SkelGoal] at this ⊢
+    intro s' acc' hs' hacc
+    obtain ⟨c', r', rfl, h1, h2⟩ := lower_eq_cons hs'
+    have hc1 : ¬ c' = '{' := fun hh => hc ((eq_iff_of_lowerC_eq h1 brace_not_alpha.1).1 hh)
+    have hc2' : ¬ c' = '}' := fun hh => hc2 ((eq_iff_of_lowerC_eq h1 brace_not_alpha.2.1).1 hh)
+    obtain ⟨toks', h3, h4⟩ := this r' (acc' ++ [c']) h2 (by simp [hacc, h1])
+    exact ⟨toks', by rw [scanM_spec_char hc1 hc2', h3], h4⟩
+
+/-! ### case conversion is idempotent on token lists -/
+
+theorem eq_singleton_iff_of_lower_eq {a b : Str} (h : lower a = lower b) {x : Char} (hx : isAlpha x = false) :
+    a = [x] ↔ b = [x] := by
+  cases a with
+  | nil => rw [lower_eq_nil h.symm]
+  | cons c r =>
+    obtain ⟨c', r', rfl, h1, h2⟩ := lower_eq_cons h.symm
+    have e := eq_iff_of_lowerC_eq h1 hx
+    cases r with
+    | nil => rw [lower_eq_nil h2]; simp [e]
+    | cons c2 r2 =>
+      obtain ⟨c2', r2', rfl, _, _⟩ := lower_eq_cons h2
+      simp
+
+theorem all_isWs_of_lower_eq {a b : Str} (h : lower a = lower b) : a.all isWs = b.all isWs := by
+  induction a generalizing b with
+  | nil => rw [lower_eq_nil h.symm]
+  | cons c r ih =>
+    obtain ⟨c', r', rfl, h1, h2⟩ := lower_eq_cons h.symm
+    simp only [List.all_cons, ih h2.symm, isWs_of_lowerC_eq h1]
+
+theorem caseNext_of_lower_eq (st : CaseState) {a b : Str} (h : lower a = lower b) :
+    caseNext st a = caseNext st b := by
+  have e1 := eq_singleton_iff_of_lower_eq h brace_not_alpha.2.2.2.2
+  have e2 := all_isWs_of_lower_eq h
+  have e3 : a = [] ↔ b = [] := by
+    constructor
+    · intro ha; subst ha; exact lower_eq_nil h.symm
+    · intro hb; subst hb; exact lower_eq_nil h
+  have e4 : a ≠ [] ↔ b ≠ [] := not_congr e3
+  simp only [caseNext, e1, e2, e4]
+
+theorem caseTok_idem (m : CaseMode) (st : CaseState) (t : Str) (l : Nat) :
+    caseTok m st (caseTok m st (t, l), l) = caseTok m st (t, l) := by
+  cases l with
+  | zero => simp only [caseTok, convertStr_idem]
+  | succ l =>
+    simp only [caseTok]
+    split
+    · rename_i hc
+      have := startsWithBackslash_of_lower_eq (lower_convertSpecial m st t)
+      rw [if_pos ⟨hc.1, by rw [this]; exact hc.2⟩, convertSpecial_idem]
+    · rfl
+
+theorem caseToks_idem (m : CaseMode) (toks : List Tok) : ∀ st,
+    caseToks m st (caseToks m st toks) = caseToks m st toks := by
+  induction toks with
+  | nil => intro st; rfl
+  | cons t r ih =>
+    intro st
+    obtain ⟨t, l⟩ := t
+    cases l with
+    | zero =>
+      simp only [caseToks, caseTok_idem]
+      have : caseNext st (caseTok m st (t, 0)) = caseNext st t :=
+        caseNext_of_lower_eq st (lower_caseTok m st (t, 0))
+      rw [this, ih]
+    | succ l => simp only [caseToks, caseTok_idem, ih]
+
+theorem caseToks_shape (m : CaseMode) (toks : List Tok) : ∀ st, Shape toks (caseToks m st toks) := by
+  induction toks with
+  | nil => intro st; exact List.Forall₂.nil
+  | cons t r ih =>
+    intro st
+    obtain ⟨t, l⟩ := t
+    cases l with
+    | zero =>
+      exact Shape.cons' (length_eq_of_lower_eq (lower_caseTok m st (t, 0)).symm) rfl (ih _)
+    | succ l =>
+      exact Shape.cons' (length_eq_of_lower_eq (lower_caseTok m st (t, l + 1)).symm) rfl (ih _)
+
+/-! ### what case conversion leaves alone -/
+
+theorem forall₂_map_self {α β} (R : α → β → Prop) (f : α → β) (hf : ∀ a, R a (f a)) :
+    ∀ l : List α, List.Forall₂ R l (l.map f)
+  | [] => List.Forall₂.nil
+  | a :: l => List.Forall₂.cons (hf a) (forall₂_map_self R f hf l)
+
+/-- relation between a token and its case-converted form: same level; a token inside braces that
+is not a special character is unchanged; in a special character the words (split at spaces) that
+start with a backslash are unchanged and the others keep their letters up to case -/
+def CaseTokRel (t t' : Tok) : Prop :=
+  t'.2 = t.2 ∧
+  (1 ≤ t.2 → ¬ (t.2 = 1 ∧ startsWithBackslash t.1 = true) → t'.1 = t.1) ∧
+  (t.2 = 1 → startsWithBackslash t.1 = true →
+    ∃ ws', t'.1 = joinWith [' '] ws' ∧
+      List.Forall₂ (fun w w' => (startsWithBackslash w = true → w' = w) ∧ lower w' = lower w)
+        (splitSpace t.1) ws')
+
+theorem caseTokRel_caseTok (m : CaseMode) (st : CaseState) (t : Str) (l : Nat) :
+    CaseTokRel (t, l) (caseTok m st (t, l), l) := by
+  refine ⟨rfl, ?_, ?_⟩
+  · intro h1 h2
+    cases l with
+    | zero => simp at h1
+    | succ l => simp only [caseTok]; rw [if_neg h2]
+  · intro h1 h2
+    simp only at h1 h2
+    subst h1
+    have e : caseTok m st (t, 1) = convertSpecial m st t := by simp [caseTok, h2]
+    rw [e]
+    refine ⟨_, convertSpecial_eq m st t, forall₂_map_self _ _ ?_ _⟩
+    intro w
+    exact ⟨fun hw => by simp [specialWord, hw], lower_specialWord m st w⟩
+
+theorem caseToks_rel (m : CaseMode) (toks : List Tok) : ∀ st,
+    List.Forall₂ CaseTokRel toks (caseToks m st toks) := by
+  induction toks with
+  | nil => intro st; exact List.Forall₂.nil
+  | cons t r ih =>
+    intro st
+    obtain ⟨t, l⟩ := t
+    cases l with
+    | zero => exact List.Forall₂.cons (caseTokRel_caseTok m st t 0) (ih _)
+    | succ l => exact List.Forall₂.cons (caseTokRel_caseTok m st t (l + 1)) (ih _)
 end Pybtex
